@@ -105,7 +105,10 @@ def main(argv=None):
     nthashes = set()
     for i, p, out, log in procs:
         if not os.path.exists(out):
-            continue
+            # a shard that died in the harness still reports what its monitors had already seen (it stays in `dead`)
+            out = out + ".partial"
+            if not os.path.exists(out):
+                continue
         with open(out) as f:
             d = json.load(f)
         evaluations += d["evaluations"]
